@@ -29,7 +29,7 @@ def main():
     pids = [c['property_id'] for c in json.load(open(os.path.join(V, 'MANIFEST.json')))['checks']]
     items = []
     bd = os.path.join(V, 'benign')
-    for s in sorted(os.listdir(bd)):
+    for s in sorted(x for x in os.listdir(bd) if os.path.isdir(os.path.join(bd, x))):
         for f in sorted(os.listdir(os.path.join(bd, s))):
             if f.endswith('.diff'):
                 n = '%s/%s' % (s, f[:-5])
